@@ -93,7 +93,59 @@ def style_of(codes):
 # canonical form of the concrete object graph
 
 
+_PT = None
+
+
+def _canon_fast(v):
+    """Fast path for the representation at hand (AnsiString{_s,_fmts: {int: point{add,rem}}}); returns None
+    when the object does not look like that, and the generic walker takes over."""
+    d = v.__dict__
+    if len(d) != 2 or '_s' not in d or '_fmts' not in d:
+        return None
+    fm = d['_fmts']
+    if type(fm) is not dict:
+        return None
+    ids = {}
+    out = [d['_s']]
+    for k in sorted(fm):
+        p = fm[k]
+        pd = p.__dict__
+        if len(pd) != 2:
+            return None
+        try:
+            add, rem = pd['add'], pd['rem']
+        except KeyError:
+            return None
+        if type(add) is not list or type(rem) is not list:
+            return None
+        ra = []
+        for x in add:
+            i = id(x)
+            if i not in ids:
+                ids[i] = len(ids)
+            ra.append((ids[i], x._str))
+        rr = []
+        for x in rem:
+            i = id(x)
+            if i not in ids:
+                ids[i] = len(ids)
+            rr.append((ids[i], x._str))
+        out.append((k, tuple(ra), tuple(rr)))
+    return tuple(out)
+
+
 def canon(v):
+    if type(v) is AnsiString:
+        try:
+            c = _canon_fast(v)
+        except Exception:  # noqa
+            c = None
+        if c is not None:
+            return c
+    return canon_generic(v)
+
+
+def canon_generic(v):
     """Structural serialisation of the object graph behind v with setting identities renamed by
     first visit.  Exact: equal canon <=> isomorphic object graphs."""
     ids = {}
@@ -153,7 +205,7 @@ def snapshot(v):
 PROBE_CODE = '95'   # a colour no palette role uses
 
 
-def self_check(v):
+def self_check(v, deep=False):
     """Library's own consistency check + every query/rendering must work.  Returns None or text."""
     try:
         s = v if isinstance(v, AnsiString) else v._s
@@ -161,7 +213,11 @@ def self_check(v):
             pass
         for i in range(len(s)):
             s.ansi_settings_at(i)
-        renderings(s)
+        if deep:
+            renderings(s)
+        else:
+            s.to_str()
+            s.to_str(optimize=False, reset_start=True)
     except Exception as e:  # noqa
         return 'self-check raised %s: %s' % (type(e).__name__, e)
     return None
